@@ -93,10 +93,17 @@ def run(ctx, repo):
 
     # ---------------- R3 admission table
     methods = {f.name: f for f in comp.body if isinstance(f, ast.FunctionDef)}
+    state_consts = {}
+    try:
+        for k_, v_ in repo.folded(HJ)[0].items():
+            if isinstance(v_, str) or (isinstance(v_, (tuple, list, frozenset, set)) and all(isinstance(x, str) for x in v_)):
+                state_consts[k_] = tuple(v_) if not isinstance(v_, str) else v_
+    except Exception:
+        state_consts = {}
     for name, key in (('add_jumper', 'add_jumper'), ('set_bar_height', 'set_bar_height'), ('check_started', 'trial')):
         if name not in methods:
             raise AnalysisError('anchor vanished: %s.%s' % (COMP, name))
-        gt = GuardTable(methods[name], STATES)
+        gt = GuardTable(methods[name], STATES, consts=state_consts)
         res = gt.table()
         may = [s for s in STATES if 'proceed' in res[s].values()]
         must = [s for s in STATES if set(res[s].values()) == {'raise'}]
@@ -550,7 +557,7 @@ def small_eval(e, env):
 
 def check_limit_test(ctx, guard):
     """the attempts guard refuses exactly when len(card[-1]) >= round_lim"""
-    tests = [st for st in guard.body if isinstance(st, ast.If) and 'round_lim' in ast.unparse(st.test)
+    tests = [st for st in ast.walk(guard) if isinstance(st, ast.If) and 'round_lim' in ast.unparse(st.test)
              and any(isinstance(x, ast.Raise) for x in st.body)]
     if not tests:
         ctx.finding('R6', '%s::%s.%s::attempt limit guard' % (HJ, JUMPER, GUARD_NAME[0]), HJ, guard.lineno,
